@@ -91,6 +91,7 @@ let predict_http gun fault status en depth nto tag path obs =
     end in
   (pred, v, gun = "c" || fails || invalid || (cfg.at_enabled && List.length pathb > 1))
 
+let colon_split s = String.split_on_char ':' s
 let hstep_of kind =
   if starts "s" kind && kind <> "stall" then HStepOk (n_of_string (after_prefix "s" kind)) else HStepFail
 let gstep_of kind =
@@ -98,9 +99,82 @@ let gstep_of kind =
   else if kind = "badpayload" then GSBadPayload
   else if starts "post" kind then GSCalled (n_of_string (after_prefix "post" kind), true)
   else GSCalled (n_of_string (after_prefix "st" kind), false)
-let steps_of f field =
+(* step = <label>:<kind>[:<other>]: the label is the field the gun builds the sample tag from (HTTP: the
+   request's name, gRPC: the call's tag), <other> the other declared field (HTTP: the request's tag,
+   gRPC: the call's name, step<i> by default) *)
+let bytes_of_string (s : string) : n list = List.init (String.length s) (fun i -> n_of_int (Char.code s.[i]))
+let decl_steps_of ~(http : bool) f field =
   if field = "-" then [] else
-  List.map (fun st -> let (nm, kind) = cut ':' st in (bytes_of_hex nm, f kind)) (String.split_on_char ',' field)
+  List.mapi (fun i st ->
+      let (label, rest) = cut ':' st in
+      let (kind, other) = cut ':' rest in
+      let label = bytes_of_hex label in
+      let d = if http then { sd_name = label; sd_tag = (if other = "" then [] else bytes_of_hex other) }
+              else { sd_name = (if other = "" then bytes_of_string (Printf.sprintf "step%d" i) else bytes_of_hex other); sd_tag = label } in
+      (d, f kind)) (String.split_on_char ',' field)
+
+(* ---- scenario-file cases and runs through the phout queue (harness/cmd/hC10/run.go) ---- *)
+
+let predict_scfile k decls scens obs =
+  let k = int_of_string k in
+  let reg = List.map (fun d -> match colon_split d with
+                        | [nm; tg; kind] -> ({ sd_name = bytes_of_hex nm; sd_tag = bytes_of_hex tg }, hstep_of kind)
+                        | _ -> failwith ("bad declaration " ^ d)) (String.split_on_char ',' decls) in
+  let item it =
+    if it = "sl" then SISleep else
+    let (nm, cnt) = cut '*' it in
+    let cnt = if cnt = "" then 1 else int_of_string (List.hd (String.split_on_char '+' cnt)) in
+    SIReq (bytes_of_hex nm, nat_of_int cnt) in
+  let scs = List.map (fun sc -> let (nm, items) = cut '=' sc in
+                       (bytes_of_hex nm, List.map item (String.split_on_char ',' items))) (String.split_on_char ';' scens) in
+  let traces = List.map (fun (nm, items) -> hscen_file_ev nm reg items) scs in
+  if List.exists (fun t -> t = None) traces then
+    (* the provider refuses a file one of whose scenarios names an undeclared request or starts with a sleep *)
+    ("providererr", verdict (obs = "providererr") "expected the provider to refuse the file", false)
+  else begin
+    let n = List.length scs in
+    let acquired = List.init k (fun i -> List.nth scs (i mod n)) in
+    let trs = List.map (fun (nm, items) -> match hscen_file_ev nm reg items with Some t -> t | None -> []) acquired in
+    let pred = s_samples_late (List.concat_map at_report trs) (List.fold_left (fun a t -> a + int_of_nat (late_writes t)) 0 trs) in
+    let spec = List.concat_map (fun (nm, items) -> hscen_file_spec nm reg items) acquired in
+    let want = s_samples spec in
+    (pred, verdict (obs = want) ("expected " ^ want), List.length spec >= 2)
+  end
+
+let q_statuses = [| 200; 404; 503; 301 |]
+let q_status i j = n_of_int q_statuses.((i + j) mod Array.length q_statuses)
+let predict_phoutq cap kinds per obs =
+  let cap = nat_of_int (int_of_string cap) and per = int_of_string per in
+  let cfg = { at_enabled = false; at_depth = nat_of_int 2; at_notagonly = true } in
+  let str = bytes_of_string in
+  let shots = List.concat (List.init (String.length kinds) (fun i ->
+    List.init per (fun j ->
+      let name = str (Printf.sprintf "i%dn%d" i j) in
+      match kinds.[i] with
+      | 'h' ->
+          let x = if j mod 5 = 4 then XErr (false, EOp (ESys (EErrno (n_of_int 104)))) else XResp (q_status i j, BodyOk) in
+          ShHttp (cfg, false, n_of_int (i * 1000 + j + 1), name, str "/p", x)
+      | 's' -> ShHScen (name, [({ sd_name = str "a"; sd_tag = str "t" }, HStepOk (q_status i j));
+                               ({ sd_name = str "b"; sd_tag = str "t" }, HStepOk (q_status i (j + 1)))])
+      | _ -> ShGrpc (name, GCalled (n_of_int ((i + j) mod 17)))))) in
+  let line (s : sample) = Printf.sprintf "%s#%s:%s:%s" (hex_of_bytes s.sm_tags) (string_of_n s.sm_id) (string_of_n s.sm_proto) (string_of_n s.sm_net) in
+  let show (l : sample list) = String.concat " " (Printf.sprintf "n=%d" (List.length l) :: List.sort compare (List.map line l)) in
+  (* code-shaped side: the Report re-read from phout.go, the writer as far behind as that Report lets it be *)
+  let var = report_variant gen_phout_report_plain_send in
+  let reports = List.concat_map shot_reports shots in
+  let pred = (match run_lines var cap (lazy_history var cap qinit reports) with Some l -> show l | None -> "stuck") in
+  (* specification: one line per fired request / executed step, with its own tag, id and codes
+     (gRPC: the documented code of the call status) *)
+  let spec_of = function
+    | ShGrpc (tg, GCalled st) -> [{ sm_tags = tg; sm_proto = doc_code st; sm_net = n_of_int 0; sm_id = n_of_int 0 }]
+    | s -> shot_spec s in
+  let spec = List.concat_map spec_of shots in
+  let fired = List.fold_left (fun a s -> a + int_of_nat (shot_requests s)) 0 shots in
+  let want = show spec in
+  let v = if List.length spec <> fired then "BAD:specification lists a different number of samples than requests were fired"
+          else verdict (obs = want) (Printf.sprintf "the results file does not hold exactly one line per fired request (%s lines of %d)"
+                                       (List.hd (split_blank (obs ^ " ?"))) fired) in
+  (pred, v, fired > int_of_nat cap)
 
 
 (* ---- ammo-file cases (harness/cmd/hC10/ammo.go): from the bytes of the file to the samples ---- *)
@@ -314,13 +388,15 @@ let predict (c : string) (obs : string) : string * string * bool =
       let want = line (List.map (fun (_, s) -> codes s) reqs) in
       (pred, verdict (obs = want) "a written phout line does not carry the codes of its own request", true)
   | ["hscen"; name; steps] ->
-      let st = steps_of hstep_of steps and nm = bytes_of_hex name in
-      let want = s_samples (hscen_spec nm st) in
-      (s_trace (hscen_ev nm st), verdict (obs = want) ("expected " ^ want), List.length st > 1)
+      let st = decl_steps_of ~http:true hstep_of steps and nm = bytes_of_hex name in
+      let want = s_samples (hscen_decl_spec nm st) in
+      (s_trace (hscen_ev_decl nm st), verdict (obs = want) ("expected " ^ want), List.length st > 1)
   | ["gscen"; name; steps] ->
-      let st = steps_of gstep_of steps and nm = bytes_of_hex name in
-      let want = s_samples (gscen_spec nm st) in
-      (s_trace (gscen_ev nm st), verdict (obs = want) ("expected " ^ want), List.length st > 1)
+      let st = decl_steps_of ~http:false gstep_of steps and nm = bytes_of_hex name in
+      let want = s_samples (gscen_decl_spec nm st) in
+      (s_trace (gscen_ev_decl nm st), verdict (obs = want) ("expected " ^ want), List.length st > 1)
+  | ["scfile"; _; k; decls; scens] -> predict_scfile k decls scens obs
+  | ["phoutq"; cap; kinds; per] -> predict_phoutq cap kinds per obs
   | ["gshoot"; tag; kind] ->
       let call = (if kind = "unknown" then GUnknown else if kind = "badpayload" then GBadPayload
                   else GCalled (n_of_string (after_prefix "st" kind))) in
